@@ -229,6 +229,28 @@ def one_case(arg):
                         out["viol"].append(("C13/stored-graph/root-through-replaced-object/values-differ" + ("/core.useReplaceRefs=true-in-config" if explicit_cfg else ""),
                                             {"root": sp, "kind": kind, "diffs": bad[:4]}))
                     out["root_through"] = out.get("root_through", 0) + 1
+        # --- a repository whose path contains a line feed (git prints such paths verbatim), with another repository sitting
+        # at the path that ends where the line feed is
+        if idx % 4 == 1:
+            lfw = os.path.join(d, "proj\nv2")
+            shutil.copytree(work, lfw, symlinks=True)
+            shutil.copytree(decoy, os.path.join(d, "proj"))
+            os.makedirs(os.path.join(lfw, "s", "t"), exist_ok=True)
+            lfg = os.path.join(lfw, ".git")
+            outs_l = {}
+            for name, cwd, cmd, env in [("top", lfw, [sz] + argv, {}), ("subdir", os.path.join(lfw, "s", "t"), [sz] + argv, {}),
+                                        ("GIT_DIR-absolute", unrelated, [sz] + argv, {"GIT_DIR": lfg}),
+                                        ("git -C", unrelated, [G.REAL_GIT, "-C", lfw, "sizer"] + argv, {"PATH": bindir + ":/usr/bin:/bin"}),
+                                        ("dot-git", lfg, [sz] + argv, {})]:
+                r = R.run_proc(cmd, cwd, R.base_env(env), timeout=60, tmpdir=d)
+                out["evals"] += 1
+                if r.rc != 0:
+                    out["viol"].append(("C13/addressing/run-failed/path-with-line-feed/" + name, {"rc": r.rc, "stderr": r.err[-300:].decode("utf-8", "replace")}))
+                else:
+                    outs_l[name] = r.out
+            for name, o in outs_l.items():
+                if o != ref_out_for_lf(outs, o):
+                    out["viol"].append(("C13/addressing/report-differs/path-with-line-feed/" + name, {"first_diff": _first_diff(ref_out_for_lf(outs, o), o)}))
         # --- a repository without any reference, HEAD detached, and a linked worktree whose HEAD is detached elsewhere:
         # nothing is selected, so every way of addressing it gives the same (empty) report
         if idx % 4 == 3 and len(m.commits) >= 2:
@@ -332,6 +354,11 @@ def one_case(arg):
     finally:
         shutil.rmtree(d, ignore_errors=True)
     return out
+
+
+def ref_out_for_lf(outs, fallback):
+    """The report of the same repository at its ordinary path (mode 'top'), if that run succeeded."""
+    return outs.get("top", fallback)
 
 
 def _first_diff(a, b):
